@@ -220,16 +220,16 @@ fn signed_zero_differs(a: &Value, b: &Value) -> bool {
 /// coarse list of the syntax used.
 fn text_cell(a: &str, b: &str) -> String {
     let (fa, fb) = (text_feats(a), text_feats(b));
-    if let (Some(pa), Some(pb)) = (parse(a), parse(b)) {
-        if signed_zero_differs(&pa, &pb) {
-            return "float-signed-zero".into();
-        }
+    if fa.newline_in_attr_body || fb.newline_in_attr_body {
+        return "newline-in-attr-body".into();
     }
     if fa.delims_in_string_in_attr_body || fb.delims_in_string_in_attr_body {
         return "delims-in-string-in-attr-body".into();
     }
-    if fa.newline_in_attr_body || fb.newline_in_attr_body {
-        return "newline-in-attr-body".into();
+    if let (Some(pa), Some(pb)) = (parse(a), parse(b)) {
+        if signed_zero_differs(&pa, &pb) {
+            return "float-signed-zero".into();
+        }
     }
     let mut all = vec![];
     let or = |x: bool, y: bool| x || y;
@@ -433,6 +433,7 @@ fn check_texts(v: &mut Verdict, ta: &str, tb: &str) -> PairFacts {
                     ),
                 );
             } else {
+                v.class(if ta.contains('@') || tb.contains('@') { "false-positive-with-attrs" } else { "false-positive-without-attrs" });
                 v.fail(
                     format!(
                         "cmp-false-positive:{}",
